@@ -20,7 +20,7 @@ from odxtools.nameditemlist import ItemAttributeList, NamedItemList
 from pyvc.api import H
 from pyvc.registry import harness
 
-NAMES = ["a", "a_2", "b_", "class", "1x", "append"]
+NAMES = ["a", "a_2", "b_", "class", "1x", "append", "keys"]
 SMALL_NAMES = ["a", "a_2", "class"]
 MID_NAMES = ["a", "a_2", "class", "b_"]
 _COUNTER = [0]
@@ -123,7 +123,7 @@ def _fam(tier, seed):
 
 
 @harness(props=["C16"], strength="B", family=_fam,
-         bound="pre-state: any invariant-satisfying list of 0..2 (quick) / 0..3 (thorough) items over an 8-name alphabet "
+         bound="pre-state: any invariant-satisfying list of 0..2 (quick) / 0..3 (thorough) items over a 7-name alphabet "
          "that contains every special class of short name, items may be the same object or equal twins",
          functions=[ItemAttributeList.__init__, ItemAttributeList.append, ItemAttributeList._add_attribute_item,
                     ItemAttributeList.insert, ItemAttributeList.remove, ItemAttributeList.pop,
